@@ -27,29 +27,41 @@ theorem deliverValue_halt (s : State) (p : FId) (fp : Fiber) (c : Cont) (v : Val
     · rw [log_halt]; rfl
     · rfl
 
-/-- when `unwind` does not halt, the activation stack it leaves is a suffix of the caller chain it was given -/
+def Halt.isDone : Halt → Bool
+  | .done .. => true
+  | _ => false
+
+/-- the machine stopped for a reason other than control returning to the C caller of the outermost janet_continue
+    (`done`): hang / unmodelled / ill-formed.  A `done` halt is NOT an escape of the cleanup theorems: the fibers keep
+    their records and the event loop may re-enter them (`loopEnter`). -/
+def Stuck (s : State) : Prop := ∃ h, s.halt = some h ∧ h.isDone = false
+
+theorem stuck_stop (s : State) (h : Halt) (hd : h.isDone = false) : Stuck (s.stop h) := ⟨h, rfl, hd⟩
+
+/-- unless `unwind` gets stuck, the activation stack it leaves is a suffix of the caller chain it was given
+    (the empty suffix when control returns to the C caller: halt `done`) -/
 theorem unwind_stack : ∀ (stk : List FId) (s : State) (c : FId) (sig : Nat) (v : Val),
-    (unwind s stk c sig v).halt ≠ none ∨ ∃ pre, stk = pre ++ (unwind s stk c sig v).stack := by
+    Stuck (unwind s stk c sig v) ∨ ∃ pre, stk = pre ++ (unwind s stk c sig v).stack := by
   intro stk
   induction stk with
-  | nil => intro s c sig v; left; simp [unwind]
+  | nil => intro s c sig v; right; exact ⟨[], by simp [unwind]⟩
   | cons q rest ih =>
     intro s c sig v
     unfold unwind
     simp only []
     repeat' split
     all_goals first
-      | (left; simp [State.stop]; done)
+      | (left; exact stuck_stop _ _ rfl)
       | (right; exact ⟨[], by rw [deliverValue_stack]; rfl⟩)
       | (rcases ih _ _ _ _ with h | ⟨pre, h⟩
          · exact Or.inl h
          · exact Or.inr ⟨q :: pre, by rw [List.cons_append, ← h]⟩)
 
 section
-variable (p f : FId) (cont : Cont)
+variable (m : Nat) (p f : FId) (cont : Cont)
 
 def PRec (fp : Fiber) : Prop := fp.ctl = .wait cont ∧ fp.child = some f ∧ fp.pending = none ∧ inCcall fp = false ∧ cont.isNext = false
-def FRec (ff : Fiber) : Prop := ff.mask = maskOfFlags flagsTI ∧ ff.root = false
+def FRec (ff : Fiber) : Prop := ff.mask = m ∧ ff.root = false
 
 def Off (s : State) (stk : List FId) : Prop :=
   p ∉ stk ∧ f ∉ stk ∧ (∀ fp, s.fiber? p = some fp → fp.status ≠ stAlive) ∧ (∀ ff, s.fiber? f = some ff → ff.status ≠ stAlive)
@@ -58,7 +70,7 @@ def On (stk : List FId) : Prop := ∃ pre post, stk = pre ++ f :: p :: post
 
 /-- `p` is blocked in the macro's `(resume f)`; the private body fiber `f` has not exited -/
 def Blk (s : State) (stk : List FId) : Prop :=
-  (∃ fp, s.fiber? p = some fp ∧ PRec f cont fp) ∧ (∃ ff, s.fiber? f = some ff ∧ FRec ff ∧ isFinished ff.status = false) ∧
+  (∃ fp, s.fiber? p = some fp ∧ PRec f cont fp) ∧ (∃ ff, s.fiber? f = some ff ∧ FRec m ff ∧ isFinished ff.status = false) ∧
   (Off p f s stk ∨ On p f stk)
 
 /-- the body fiber has exited and the code after the resume — the cleanup form — is what `p` runs now -/
@@ -66,14 +78,24 @@ def Exited (s : State) : Prop :=
   (∃ ff, s.fiber? f = some ff ∧ isFinished ff.status = true) ∧
   ∃ fp rest, s.fiber? p = some fp ∧ fp.ctl = .run (contK cont) ∧ s.stack = p :: rest
 
-def G (s : State) : Prop := s.halt ≠ none ∨ Exited p f cont s ∨ Blk p f cont s s.stack
+/-- the body fiber has exited with a signal its mask does NOT hand to `p` (for `try`: user0-4): the signal passed `p` by;
+    `p` took the same finished status, is still parked in the macro's `(resume f)` and is not on the activation stack —
+    the code after the resume (catch clause / cleanup) has not run and, `p` being finished, never will -/
+def Passed (s : State) : Prop :=
+  ∃ ff fp, s.fiber? f = some ff ∧ s.fiber? p = some fp ∧ isFinished ff.status = true ∧ ff.status < stNew ∧
+    ¬ (ff.status = sigOk ∨ testBit m ff.status = true) ∧ fp.status = ff.status ∧ fp.ctl = .wait cont ∧ p ∉ s.stack
 
-variable {p f cont}
+/-- every signal the mask hands to the resumer is an exit of the body (true of :ti :ie :i0 :p, false of :yi) -/
+def AccFin (m : Nat) : Prop := ∀ sig, sig < stNew → (sig = sigOk ∨ testBit m sig = true) → isFinished sig = true
+
+def G (s : State) : Prop := Stuck s ∨ (Exited p f cont s ∨ Passed m p f cont s) ∨ Blk m p f cont s s.stack
+
+variable {m p f cont}
 
 /-- Case A: neither `p` nor `f` is among the callers: nothing about them changes -/
 theorem unwind_A {s : State} {stk : List FId} (c : FId) (sig : Nat) (v : Val)
-    (hp : ∃ fp, s.fiber? p = some fp ∧ PRec f cont fp) (hf : ∃ ff, s.fiber? f = some ff ∧ FRec ff ∧ isFinished ff.status = false)
-    (hoff : Off p f s stk) : G p f cont (unwind s stk c sig v) := by
+    (hp : ∃ fp, s.fiber? p = some fp ∧ PRec f cont fp) (hf : ∃ ff, s.fiber? f = some ff ∧ FRec m ff ∧ isFinished ff.status = false)
+    (hoff : Off p f s stk) : G m p f cont (unwind s stk c sig v) := by
   obtain ⟨hpn, hfn, hpa, hfa⟩ := hoff
   rcases unwind_stack stk s c sig v with h | ⟨pre, h⟩
   · exact Or.inl h
@@ -85,10 +107,16 @@ theorem unwind_A {s : State} {stk : List FId} (c : FId) (sig : Nat) (v : Val)
     · rw [unwind_other stk s c sig v p hpn]; exact hpa
     · rw [unwind_other stk s c sig v f hfn]; exact hfa
 
-theorem accepted_finished : ∀ sig, sig < stNew → (sig = sigOk ∨ testBit (maskOfFlags flagsTI) sig = true) → isFinished sig = true := by decide
+theorem accFin_TI : AccFin (maskOfFlags flagsTI) := by unfold AccFin; decide
+theorem accFin_IE : AccFin (maskOfFlags flagsIE) := by unfold AccFin; decide
+theorem accFin_I0 : AccFin (maskOfFlags flagsI0) := by unfold AccFin; decide
+theorem accFin_P : AccFin (maskOfFlags flagsP) := by unfold AccFin; decide
 
+/-- mask :ti — every signal that finishes the body is handed to the parent (so `Passed` cannot occur) -/
 theorem rejected_unfinished : ∀ sig, sig < stNew → ¬ (sig = sigOk ∨ testBit (maskOfFlags flagsTI) sig = true) →
-    isFinished sig = false ∧ sig ≠ stAlive := by decide
+    isFinished sig = false := by decide
+
+theorem lt_new_ne_alive : ∀ sig, sig < stNew → sig ≠ stAlive := by decide
 
 theorem deliverValue_self {s : State} {q : FId} {cur : Fiber} (fq : Fiber) (l : Nat) (k : Tm) (b : Bool) (v : Val)
     (h : s.fiber? q = some cur) :
@@ -97,12 +125,24 @@ theorem deliverValue_self {s : State} {q : FId} {cur : Fiber} (fq : Fiber) (l : 
   rw [fiber?_log]
   exact fiber?_setFiber_eq _ h
 
+/-- the signal that finished `f` was not handed to `p` and goes on to the callers below `p` -/
+theorem unwind_passed {s2 : State} {post : List FId} {ff fp2 : Fiber} (sig : Nat) (v : Val)
+    (hf2 : s2.fiber? f = some ff) (hp2 : s2.fiber? p = some fp2) (hfin : isFinished ff.status = true) (hlt : ff.status < stNew)
+    (hrej : ¬ (ff.status = sigOk ∨ testBit m ff.status = true)) (hst : fp2.status = ff.status) (hw : fp2.ctl = .wait cont)
+    (hpn : p ∉ post) (hfn : f ∉ post) : G m p f cont (unwind s2 post p sig v) := by
+  rcases unwind_stack post s2 p sig v with hst' | ⟨pre, hpre⟩
+  · exact Or.inl hst'
+  · refine Or.inr (Or.inl (Or.inr ⟨ff, fp2, ?_, ?_, hfin, hlt, hrej, hst, hw, ?_⟩))
+    · rw [unwind_other post _ p sig v f hfn]; exact hf2
+    · rw [unwind_other post _ p sig v p hpn]; exact hp2
+    · intro hmem; exact hpn (hpre ▸ List.mem_append_right _ hmem)
+
 /-- Case C: the body fiber `f` itself hands `(sig, v)` to `p` (its status already is `sig`):
     exit signal → delivered, cleanup next; anything else → `p` stays blocked, takes the status, signal goes on -/
-theorem unwind_C {s : State} {post : List FId} {fp ff : Fiber} (sig : Nat) (v : Val)
-    (hp : s.fiber? p = some fp) (hpr : PRec f cont fp) (hf : s.fiber? f = some ff) (hfr : FRec ff) (hst : ff.status = sig)
+theorem unwind_C (hm : AccFin m) {s : State} {post : List FId} {fp ff : Fiber} (sig : Nat) (v : Val)
+    (hp : s.fiber? p = some fp) (hpr : PRec f cont fp) (hf : s.fiber? f = some ff) (hfr : FRec m ff) (hst : ff.status = sig)
     (hsig : sig < stNew) (hne : p ≠ f) (hpn : p ∉ post) (hfn : f ∉ post) :
-    G p f cont (unwind s (p :: post) f sig v) := by
+    G m p f cont (unwind s (p :: post) f sig v) := by
   obtain ⟨hw, hch, hpe, hcc, hnn⟩ := hpr
   cases cont with
   | loopK l a b k => simp [Cont.isNext] at hnn
@@ -113,28 +153,35 @@ theorem unwind_C {s : State} {post : List FId} {fp ff : Fiber} (sig : Nat) (v : 
     simp only [hp, hf, hw]
     by_cases hacc : sig = sigOk ∨ testBit ff.mask sig = true
     · -- exit: delivered
-      have hfin : isFinished ff.status = true := by rw [hst]; exact accepted_finished sig hsig (hfr.1 ▸ hacc)
+      have hfin : isFinished ff.status = true := by rw [hst]; exact hm sig hsig (hfr.1 ▸ hacc)
       rw [if_pos hacc]
       simp only [Cont.isNext, Bool.false_eq_true, if_false, hpe]
-      refine Or.inr (Or.inl ?_)
+      refine Or.inr (Or.inl (Or.inl ?_))
       have hfne : f ≠ p := fun h => hne h.symm
       split
       · refine ⟨⟨ff, by rw [deliverValue_other _ _ _ _ _ _ hfne]; exact hf, hfin⟩, _, post, deliverValue_self _ _ _ _ _ hp, rfl, ?_⟩
         rw [deliverValue_stack]
       · refine ⟨⟨ff, by rw [deliverValue_other _ _ _ _ _ _ hfne]; exact hf, hfin⟩, _, post, deliverValue_self _ _ _ _ _ hp, rfl, ?_⟩
         rw [deliverValue_stack]
-    · -- not an exit: p keeps waiting
-      have hru := rejected_unfinished sig hsig (hfr.1 ▸ hacc)
+    · -- not handed to p: p takes the status and the signal goes on
+      have hna := lt_new_ne_alive sig hsig
       rw [if_neg hacc]
       simp only [hcc, Bool.false_eq_true, if_false]
-      have hfa : (ff.status == stAlive) = false := by rw [hst]; simpa using hru.2
+      have hfa : (ff.status == stAlive) = false := by rw [hst]; simpa using hna
       simp only [hfa, Bool.and_false]
-      apply unwind_A
-      · exact ⟨_, fiber?_setFiber_eq _ hp, rfl, by simp [hch], hpe, hcc, rfl⟩
-      · exact ⟨ff, by rw [fiber?_setFiber_ne _ _ _ _ (fun h => hne h.symm)]; exact hf, hfr, hst ▸ hru.1⟩
-      · refine ⟨hpn, hfn, ?_, ?_⟩
-        · intro fp' h'; rw [fiber?_setFiber_eq _ hp] at h'; cases h'; exact hru.2
-        · intro ff' h'; rw [fiber?_setFiber_ne _ _ _ _ (fun h => hne h.symm), hf] at h'; cases h'; rw [hst]; exact hru.2
+      by_cases hfin : isFinished sig = true
+      · -- … and it finished the body (try: user0-4): `Passed`
+        refine unwind_passed sig v (by rw [fiber?_setFiber_ne _ _ _ _ (fun h => hne h.symm)]; exact hf) (fiber?_setFiber_eq _ hp)
+          (hst ▸ hfin) (hst ▸ hsig) ?_ hst.symm rfl hpn hfn
+        rw [hst]; exact fun h => hacc (hfr.1 ▸ h)
+      · -- not an exit: p keeps waiting
+        have hnf : isFinished sig = false := by cases h : isFinished sig <;> simp_all
+        apply unwind_A
+        · exact ⟨_, fiber?_setFiber_eq _ hp, rfl, by simp [hch], hpe, hcc, rfl⟩
+        · exact ⟨ff, by rw [fiber?_setFiber_ne _ _ _ _ (fun h => hne h.symm)]; exact hf, hfr, hst ▸ hnf⟩
+        · refine ⟨hpn, hfn, ?_, ?_⟩
+          · intro fp' h'; rw [fiber?_setFiber_eq _ hp] at h'; cases h'; exact hna
+          · intro ff' h'; rw [fiber?_setFiber_ne _ _ _ _ (fun h => hne h.symm), hf] at h'; cases h'; rw [hst]; exact hna
 
 theorem deliverValue_self_gen {s : State} {q : FId} {cur : Fiber} (fq : Fiber) (c : Cont) (v : Val) (h : s.fiber? q = some cur) :
     ∃ x, (deliverValue s q fq c v).fiber? q = some x ∧ x.status = fq.status ∧ x.mask = fq.mask ∧ x.root = fq.root := by
@@ -147,8 +194,8 @@ theorem deliverValue_self_gen {s : State} {q : FId} {cur : Fiber} (fq : Fiber) (
 
 /-- a value delivered to a fiber other than `p`, `f` while the stack has the shape `pre ++ f :: p :: post` -/
 theorem G_deliver_other {s : State} {q : FId} (fq : Fiber) (c : Cont) (v : Val)
-    (hp : ∃ fp, s.fiber? p = some fp ∧ PRec f cont fp) (hf : ∃ ff, s.fiber? f = some ff ∧ FRec ff ∧ isFinished ff.status = false)
-    (hon : On p f s.stack) (hqp : p ≠ q) (hqf : f ≠ q) : G p f cont (deliverValue s q fq c v) := by
+    (hp : ∃ fp, s.fiber? p = some fp ∧ PRec f cont fp) (hf : ∃ ff, s.fiber? f = some ff ∧ FRec m ff ∧ isFinished ff.status = false)
+    (hon : On p f s.stack) (hqp : p ≠ q) (hqf : f ≠ q) : G m p f cont (deliverValue s q fq c v) := by
   refine Or.inr (Or.inr ⟨?_, ?_, Or.inr ?_⟩)
   · rw [deliverValue_other _ _ _ _ _ _ hqp]; exact hp
   · rw [deliverValue_other _ _ _ _ _ _ hqf]; exact hf
@@ -157,19 +204,19 @@ theorem G_deliver_other {s : State} {q : FId} (fq : Fiber) (c : Cont) (v : Val)
 /-- a value delivered to the running body fiber `f` itself -/
 theorem G_deliver_f {s : State} {cur : Fiber} (fq : Fiber) (c : Cont) (v : Val)
     (hp : ∃ fp, s.fiber? p = some fp ∧ PRec f cont fp) (hcur : s.fiber? f = some cur)
-    (hfr : FRec fq) (hnf : isFinished fq.status = false)
-    (hon : On p f s.stack) (hne : p ≠ f) : G p f cont (deliverValue s f fq c v) := by
+    (hfr : FRec m fq) (hnf : isFinished fq.status = false)
+    (hon : On p f s.stack) (hne : p ≠ f) : G m p f cont (deliverValue s f fq c v) := by
   obtain ⟨x, hx, h1, h2, h3⟩ := deliverValue_self_gen fq c v hcur
   refine Or.inr (Or.inr ⟨?_, ⟨x, hx, ⟨h2.trans hfr.1, h3.trans hfr.2⟩, h1 ▸ hnf⟩, Or.inr ?_⟩)
   · rw [deliverValue_other _ _ _ _ _ _ hne]; exact hp
   · rw [deliverValue_stack]; exact hon
 
 /-- Case B: the signal comes from somewhere above `f` in the stack `pre ++ f :: p :: post` (induction on `pre`) -/
-theorem unwind_B : ∀ (pre : List FId) (s : State) (post : List FId) (c : FId) (sig : Nat) (v : Val),
+theorem unwind_B (hm : AccFin m) : ∀ (pre : List FId) (s : State) (post : List FId) (c : FId) (sig : Nat) (v : Val),
     PendOK s → (∃ fp, s.fiber? p = some fp ∧ PRec f cont fp) →
-    (∃ ff, s.fiber? f = some ff ∧ FRec ff ∧ isFinished ff.status = false) →
+    (∃ ff, s.fiber? f = some ff ∧ FRec m ff ∧ isFinished ff.status = false) →
     (pre ++ f :: p :: post).Nodup → sig < stNew →
-    G p f cont (unwind s (pre ++ f :: p :: post) c sig v) := by
+    G m p f cont (unwind s (pre ++ f :: p :: post) c sig v) := by
   intro pre
   induction pre with
   | nil =>
@@ -188,21 +235,21 @@ theorem unwind_B : ∀ (pre : List FId) (s : State) (post : List FId) (c : FId) 
     · rename_i ff' fc hff' hfc
       rw [hff] at hff'; cases hff'
       split
-      · exact Or.inl (by simp [State.stop])
+      · exact Or.inl (stuck_stop _ _ rfl)
       · split
         · split
           · exact G_deliver_f (s := { s with stack := f :: p :: post }) _ _ _ ⟨fp, hfp, hpr⟩ hff hfr hnf ⟨[], post, rfl⟩ hne
           · split
             · rename_i sg hsg
               have hlt := hpo f ff sg hff hsg
-              exact unwind_C sg _ (hp' _) hpr (fiber?_setFiber_eq _ hff) (by exact hfr) (by rfl) hlt hne hpn hfn
+              exact unwind_C hm sg _ (hp' _) hpr (fiber?_setFiber_eq _ hff) (by exact hfr) (by rfl) hlt hne hpn hfn
             · exact G_deliver_f (s := { s with stack := f :: p :: post }) _ _ _ ⟨fp, hfp, hpr⟩ hff (by exact hfr) alive_not_finished ⟨[], post, rfl⟩ hne
         · have hlt : (if inCcall ff = true then coerce sig v else (sig, v)).1 < stNew := by
             split
             · exact coerce_lt sig v hsig
             · exact hsig
-          exact unwind_C _ _ (hp' _) hpr (fiber?_setFiber_eq _ hff) (by exact hfr) (by rfl) hlt hne hpn hfn
-    · exact Or.inl (by simp [State.stop])
+          exact unwind_C hm _ _ (hp' _) hpr (fiber?_setFiber_eq _ hff) (by exact hfr) (by rfl) hlt hne hpn hfn
+    · exact Or.inl (stuck_stop _ _ rfl)
   | cons q pre ih =>
     intro s post c sig v hpo hp hf hnd hsig
     rw [List.cons_append] at hnd ⊢
@@ -212,14 +259,14 @@ theorem unwind_B : ∀ (pre : List FId) (s : State) (post : List FId) (c : FId) 
     have hqp : p ≠ q := fun h => hq (by subst h; simp)
     have hp' : ∀ x, ∃ fp, (s.setFiber q x).fiber? p = some fp ∧ PRec f cont fp := by
       intro x; obtain ⟨fp, h1, h2⟩ := hp; exact ⟨fp, by rw [fiber?_setFiber_ne _ _ _ _ hqp]; exact h1, h2⟩
-    have hf' : ∀ x, ∃ ff, (s.setFiber q x).fiber? f = some ff ∧ FRec ff ∧ isFinished ff.status = false := by
+    have hf' : ∀ x, ∃ ff, (s.setFiber q x).fiber? f = some ff ∧ FRec m ff ∧ isFinished ff.status = false := by
       intro x; obtain ⟨ff, h1, h2⟩ := hf; exact ⟨ff, by rw [fiber?_setFiber_ne _ _ _ _ hqf]; exact h1, h2⟩
     unfold unwind
     simp only []
     split
     · rename_i fq fc hfq hfc
       split
-      · exact Or.inl (by simp [State.stop])
+      · exact Or.inl (stuck_stop _ _ rfl)
       · split
         · split
           · exact G_deliver_other (s := { s with stack := q :: (pre ++ f :: p :: post) }) _ _ _ hp hf ⟨q :: pre, post, rfl⟩ hqp hqf
@@ -232,7 +279,7 @@ theorem unwind_B : ∀ (pre : List FId) (s : State) (post : List FId) (c : FId) 
             · exact coerce_lt sig v hsig
             · exact hsig
           exact ih _ _ _ _ _ (hpo.setFiber q _ (by exact fun sg h => hpo q fq sg hfq h)) (hp' _) (hf' _) hnd' hlt
-    · exact Or.inl (by simp [State.stop])
+    · exact Or.inl (stuck_stop _ _ rfl)
 
 theorem checkCanResume_eq_none {ff : Fiber} (b : Bool) (hr : ff.root = false) (hnf : isFinished ff.status = false)
     (hna : ff.status ≠ stAlive) : checkCanResume ff b = none := by
@@ -246,7 +293,7 @@ theorem checkCanResume_eq_none {ff : Fiber} (b : Bool) (hr : ff.root = false) (h
 
 /-- generalisation of `G_deliver_other` to both shapes -/
 theorem G_deliver_any {s : State} {q : FId} (fq : Fiber) (c : Cont) (v : Val)
-    (hb : Blk p f cont s s.stack) (hqp : p ≠ q) (hqf : f ≠ q) : G p f cont (deliverValue s q fq c v) := by
+    (hb : Blk m p f cont s s.stack) (hqp : p ≠ q) (hqf : f ≠ q) : G m p f cont (deliverValue s q fq c v) := by
   obtain ⟨hp, hf, hsh⟩ := hb
   refine Or.inr (Or.inr ⟨?_, ?_, ?_⟩)
   · rw [deliverValue_other _ _ _ _ _ _ hqp]; exact hp
@@ -271,14 +318,14 @@ theorem Only.setFiber {s : State} {q : FId} {cur : Fiber} (x : Fiber) (ho : Only
   · rw [fiber?_setFiber_ne _ _ _ _ hwq] at hw; exact ho w fw hw hcw
 
 /-- entering a fiber that is neither `p` nor `f` and has no child (startRun) -/
-theorem startRun_G_other {s : State} {stk : List FId} {g : FId} {cur : Fiber} (fg : Fiber) (v : Val)
+theorem startRun_G_other (hm : AccFin m) {s : State} {stk : List FId} {g : FId} {cur : Fiber} (fg : Fiber) (v : Val)
     (hcur : s.fiber? g = some cur) (hpo : PendOK s) (hpp : ∀ sg, fg.pending = some sg → sg < stNew)
-    (hb : Blk p f cont s stk) (hnd : (g :: stk).Nodup) (hgp : p ≠ g) (hgf : f ≠ g) :
-    G p f cont (startRun s stk g fg v) := by
+    (hb : Blk m p f cont s stk) (hnd : (g :: stk).Nodup) (hgp : p ≠ g) (hgf : f ≠ g) :
+    G m p f cont (startRun s stk g fg v) := by
   obtain ⟨hp, hf, hsh⟩ := hb
   have hp' : ∀ x, ∃ fp, (s.setFiber g x).fiber? p = some fp ∧ PRec f cont fp := by
     intro x; obtain ⟨fp, h1, h2⟩ := hp; exact ⟨fp, by rw [fiber?_setFiber_ne _ _ _ _ hgp]; exact h1, h2⟩
-  have hf' : ∀ x, ∃ ff, (s.setFiber g x).fiber? f = some ff ∧ FRec ff ∧ isFinished ff.status = false := by
+  have hf' : ∀ x, ∃ ff, (s.setFiber g x).fiber? f = some ff ∧ FRec m ff ∧ isFinished ff.status = false := by
     intro x; obtain ⟨ff, h1, h2⟩ := hf; exact ⟨ff, by rw [fiber?_setFiber_ne _ _ _ _ hgf]; exact h1, h2⟩
   have hsh' : ∀ x, Off p f (s.setFiber g x) stk ∨ On p f stk := by
     intro x
@@ -299,7 +346,7 @@ theorem startRun_G_other {s : State} {stk : List FId} {g : FId} {cur : Fiber} (f
     rcases hsh' { fg with pending := none, status := sg, last := v } with hoff | ⟨pre, post, h⟩
     · exact unwind_A _ _ _ (hp' _) (hf' _) hoff
     · subst h
-      exact unwind_B pre _ post _ _ _ (hpo.setFiber g _ (by intro _ h; simp at h)) (hp' _) (hf' _) (List.nodup_cons.mp hnd).2 hlt
+      exact unwind_B hm pre _ post _ _ _ (hpo.setFiber g _ (by intro _ h; simp at h)) (hp' _) (hf' _) (List.nodup_cons.mp hnd).2 hlt
   · split
     · exact Or.inr (Or.inr ⟨hp' _, hf' _, push _⟩)
     · refine G_deliver_any (s := { s with stack := g :: stk }) _ _ _ ⟨hp, hf, ?_⟩ hgp hgf
@@ -308,15 +355,15 @@ theorem startRun_G_other {s : State} {stk : List FId} {g : FId} {cur : Fiber} (f
       · right; exact ⟨g :: pre, post, by show g :: stk = _; rw [h]; rfl⟩
 
 /-- entering the body fiber `f` itself, from `p` directly below it -/
-theorem startRun_G_f {s : State} {post : List FId} {cur fp : Fiber} (fg : Fiber) (v : Val)
-    (hcur : s.fiber? f = some cur) (hp : s.fiber? p = some fp) (hpr : PRec f cont fp) (hfr : FRec fg)
+theorem startRun_G_f (hm : AccFin m) {s : State} {post : List FId} {cur fp : Fiber} (fg : Fiber) (v : Val)
+    (hcur : s.fiber? f = some cur) (hp : s.fiber? p = some fp) (hpr : PRec f cont fp) (hfr : FRec m fg)
     (hpp : ∀ sg, fg.pending = some sg → sg < stNew) (hne : p ≠ f) (hpn : p ∉ post) (hfn : f ∉ post) :
-    G p f cont (startRun s (p :: post) f fg v) := by
+    G m p f cont (startRun s (p :: post) f fg v) := by
   have hp' : ∀ x, (s.setFiber f x).fiber? p = some fp := fun x => by rw [fiber?_setFiber_ne _ _ _ _ hne]; exact hp
   unfold startRun
   split
   · rename_i sg hsg
-    exact unwind_C sg v (hp' _) hpr (fiber?_setFiber_eq _ hcur) (by exact hfr) (by rfl) (hpp sg hsg) hne hpn hfn
+    exact unwind_C hm sg v (hp' _) hpr (fiber?_setFiber_eq _ hcur) (by exact hfr) (by rfl) (hpp sg hsg) hne hpn hfn
   · split
     · exact Or.inr (Or.inr ⟨⟨fp, hp' _, hpr⟩, ⟨_, fiber?_setFiber_eq _ hcur, by exact hfr, alive_not_finished⟩, Or.inr ⟨[], post, rfl⟩⟩)
     · exact G_deliver_f (s := { s with stack := f :: p :: post }) _ _ _ ⟨fp, hp, hpr⟩ hcur (by exact hfr) alive_not_finished ⟨[], post, rfl⟩ hne
@@ -339,21 +386,21 @@ theorem on_cons {stk : List FId} (g : FId) (h : On p f stk) : On p f (g :: stk) 
   obtain ⟨pre, post, h⟩ := h; exact ⟨g :: pre, post, by rw [h]; rfl⟩
 
 /-- janet_continue_no_check while `p` is blocked on `f`: whatever is entered, through child chains of any depth -/
-theorem contNoCheck_G : ∀ (fuel : Nat) (s : State) (stk : List FId) (g : FId) (v : Val),
+theorem contNoCheck_G (hm : AccFin m) : ∀ (fuel : Nat) (s : State) (stk : List FId) (g : FId) (v : Val),
     PendOK s → StackOK s stk → Only p f s → p ≠ f →
-    (∃ fp, s.fiber? p = some fp ∧ PRec f cont fp) → (∃ ff, s.fiber? f = some ff ∧ FRec ff ∧ isFinished ff.status = false) →
+    (∃ fp, s.fiber? p = some fp ∧ PRec f cont fp) → (∃ ff, s.fiber? f = some ff ∧ FRec m ff ∧ isFinished ff.status = false) →
     (∀ cur, s.fiber? g = some cur → refuseResume.contains cur.status = false) →
-    Ent p f s stk g → G p f cont (contNoCheck fuel s stk g v) := by
+    Ent p f s stk g → G m p f cont (contNoCheck fuel s stk g v) := by
   intro fuel
   induction fuel with
-  | zero => intro s stk g v _ _ _ _ _ _ _ _; exact Or.inl (by simp [contNoCheck, State.stop])
+  | zero => intro s stk g v _ _ _ _ _ _ _ _; simp only [contNoCheck]; exact Or.inl (stuck_stop _ _ rfl)
   | succ n ih =>
     intro s stk g v hpo hs ho hne hp hf hnr hent
     obtain ⟨fp, hfp, hpr⟩ := hp
     obtain ⟨ff, hff, hfr, hfnf⟩ := hf
     unfold contNoCheck
     split
-    · exact Or.inl (by simp [State.stop])
+    · exact Or.inl (stuck_stop _ _ rfl)
     · rename_i ff0 hff0
       have hnr0 := hnr ff0 hff0
       obtain ⟨hnf0, hna0⟩ := not_refused hnr0
@@ -388,11 +435,11 @@ theorem contNoCheck_G : ∀ (fuel : Nat) (s : State) (stk : List FId) (g : FId) 
             have hcf : c ≠ f := fun h => hgp (ho g ff0 hff0 (h ▸ hc))
             have hp1' : ∃ fp', (s.setFiber g { ff0 with last := .nil, passThrough := true, status := stAlive }).fiber? p = some fp' ∧ PRec f cont fp' :=
               ⟨fp, by rw [fiber?_setFiber_ne _ _ _ _ hpg]; exact hfp, hpr⟩
-            have hf1' : ∃ ff', (s.setFiber g { ff0 with last := .nil, passThrough := true, status := stAlive }).fiber? f = some ff' ∧ FRec ff' ∧ isFinished ff'.status = false :=
+            have hf1' : ∃ ff', (s.setFiber g { ff0 with last := .nil, passThrough := true, status := stAlive }).fiber? f = some ff' ∧ FRec m ff' ∧ isFinished ff'.status = false :=
               ⟨ff, by rw [fiber?_setFiber_ne _ _ _ _ hfg]; exact hff, hfr, hfnf⟩
             have hoff1 := off_cons (off_setFiber { ff0 with last := .nil, passThrough := true, status := stAlive } hoff hpg hfg) hpg hfg
             split
-            · exact Or.inl (by simp [State.stop])
+            · exact Or.inl (stuck_stop _ _ rfl)
             · rename_i fc hfc
               split
               · exact unwind_A _ _ _ hp1' hf1' hoff1
@@ -406,13 +453,13 @@ theorem contNoCheck_G : ∀ (fuel : Nat) (s : State) (stk : List FId) (g : FId) 
           have hfn : g ∉ post := fun h => hgn (List.mem_cons_of_mem _ h)
           have hp1' : ∃ fp', (s.setFiber g { ff with last := .nil, passThrough := true, status := stAlive }).fiber? p = some fp' ∧ PRec g cont fp' :=
             ⟨fp, by rw [fiber?_setFiber_ne _ _ _ _ hne]; exact hfp, hpr⟩
-          have hf1' : ∃ ff', (s.setFiber g { ff with last := .nil, passThrough := true, status := stAlive }).fiber? g = some ff' ∧ FRec ff' ∧ isFinished ff'.status = false :=
+          have hf1' : ∃ ff', (s.setFiber g { ff with last := .nil, passThrough := true, status := stAlive }).fiber? g = some ff' ∧ FRec m ff' ∧ isFinished ff'.status = false :=
             ⟨_, fiber?_setFiber_eq _ hff, hfr, alive_not_finished⟩
           split
-          · exact Or.inl (by simp [State.stop])
+          · exact Or.inl (stuck_stop _ _ rfl)
           · rename_i fc hfc
             split
-            · exact unwind_B [] _ post _ _ _ hp1 hp1' hf1' hs1.1 sigError_lt
+            · exact unwind_B hm [] _ post _ _ _ hp1 hp1' hf1' hs1.1 sigError_lt
             · rename_i hchk
               have hcna := (not_refused (checkCanResume_none hchk)).2
               have hcg : c ≠ g := by
@@ -428,15 +475,15 @@ theorem contNoCheck_G : ∀ (fuel : Nat) (s : State) (stk : List FId) (g : FId) 
           have hfg : f ≠ g := fun h => hgf h.symm
           have hp1' : ∃ fp', (s.setFiber g { ff0 with last := .nil, passThrough := true, status := stAlive }).fiber? p = some fp' ∧ PRec f cont fp' :=
             ⟨fp, by rw [fiber?_setFiber_ne _ _ _ _ hpg]; exact hfp, hpr⟩
-          have hf1' : ∃ ff', (s.setFiber g { ff0 with last := .nil, passThrough := true, status := stAlive }).fiber? f = some ff' ∧ FRec ff' ∧ isFinished ff'.status = false :=
+          have hf1' : ∃ ff', (s.setFiber g { ff0 with last := .nil, passThrough := true, status := stAlive }).fiber? f = some ff' ∧ FRec m ff' ∧ isFinished ff'.status = false :=
             ⟨ff, by rw [fiber?_setFiber_ne _ _ _ _ hfg]; exact hff, hfr, hfnf⟩
           obtain ⟨pre, post, hstk⟩ := hon
           subst hstk
           split
-          · exact Or.inl (by simp [State.stop])
+          · exact Or.inl (stuck_stop _ _ rfl)
           · rename_i fc hfc
             split
-            · exact unwind_B (g :: pre) _ post _ _ _ hp1 hp1' hf1' hs1.1 sigError_lt
+            · exact unwind_B hm (g :: pre) _ post _ _ _ hp1 hp1' hf1' hs1.1 sigError_lt
             · rename_i hchk
               have hcna := (not_refused (checkCanResume_none hchk)).2
               have hmem : ∀ q, q ∈ g :: (pre ++ f :: p :: post) → c ≠ q := by
@@ -455,7 +502,7 @@ theorem contNoCheck_G : ∀ (fuel : Nat) (s : State) (stk : List FId) (g : FId) 
             intro h; subst h; rw [hfp] at hff0; cases hff0; rw [hpr.2.1] at hc; cases hc
           have hpg : p ≠ g := fun h => hgp h.symm
           have hfg : f ≠ g := fun h => hgf h.symm
-          refine startRun_G_other _ v (fiber?_setFiber_eq _ hff0) hp2 (by exact fun sg h => hpo g ff0 sg hff0 h)
+          refine startRun_G_other hm _ v (fiber?_setFiber_eq _ hff0) hp2 (by exact fun sg h => hpo g ff0 sg hff0 h)
             ⟨⟨fp, by rw [fiber?_setFiber_ne _ _ _ _ hpg]; exact hfp, hpr⟩,
              ⟨ff, by rw [fiber?_setFiber_ne _ _ _ _ hfg]; exact hff, hfr, hfnf⟩,
              Or.inl (off_setFiber _ hoff hpg hfg)⟩ (List.nodup_cons.mpr ⟨hgn, hs.1⟩) hpg hfg
@@ -463,11 +510,11 @@ theorem contNoCheck_G : ∀ (fuel : Nat) (s : State) (stk : List FId) (g : FId) 
           rw [hff] at hff0; cases hff0
           obtain ⟨hsp, hpn⟩ := hs.tail
           have hfn : g ∉ post := fun h => hgn (List.mem_cons_of_mem _ h)
-          exact startRun_G_f _ v (fiber?_setFiber_eq _ hff) (by rw [fiber?_setFiber_ne _ _ _ _ hne]; exact hfp) hpr (by exact hfr)
+          exact startRun_G_f hm _ v (fiber?_setFiber_eq _ hff) (by rw [fiber?_setFiber_ne _ _ _ _ hne]; exact hfp) hpr (by exact hfr)
             (by exact fun sg h => hpo g ff sg hff h) hne hpn hfn
         · have hpg : p ≠ g := fun h => hgp h.symm
           have hfg : f ≠ g := fun h => hgf h.symm
-          refine startRun_G_other _ v (fiber?_setFiber_eq _ hff0) hp2 (by exact fun sg h => hpo g ff0 sg hff0 h)
+          refine startRun_G_other hm _ v (fiber?_setFiber_eq _ hff0) hp2 (by exact fun sg h => hpo g ff0 sg hff0 h)
             ⟨⟨fp, by rw [fiber?_setFiber_ne _ _ _ _ hpg]; exact hfp, hpr⟩,
              ⟨ff, by rw [fiber?_setFiber_ne _ _ _ _ hfg]; exact hff, hfr, hfnf⟩,
              Or.inr hon⟩ (List.nodup_cons.mpr ⟨hgn, hs.1⟩) hpg hfg
@@ -484,21 +531,22 @@ theorem Only.setFiber' {s : State} {q : FId} (x : Fiber) (ho : Only p f s) (hc :
   · rw [fiber?_setFiber_ne _ _ _ _ hwq] at hw; exact ho w fw hw hcw
 
 /-- context of one instruction while `p` is blocked on `f`: `h` is the running head of the stack -/
-structure BCtx (p f : FId) (cont : Cont) (s : State) (h : FId) (fh : Fiber) (rest : List FId) : Prop where
+structure BCtx (m : Nat) (p f : FId) (cont : Cont) (s : State) (h : FId) (fh : Fiber) (rest : List FId) : Prop where
   c : Ctx s h fh rest
-  blk : Blk p f cont s (h :: rest)
+  blk : Blk m p f cont s (h :: rest)
   only : Only p f s
   hne : p ≠ f
   hhp : p ≠ h
+  acc : AccFin m
 
 namespace BCtx
 variable {s : State} {h : FId} {fh : Fiber} {rest : List FId}
 
-theorem hp (b : BCtx p f cont s h fh rest) : ∃ fp, s.fiber? p = some fp ∧ PRec f cont fp := b.blk.1
-theorem hf (b : BCtx p f cont s h fh rest) : ∃ ff, s.fiber? f = some ff ∧ FRec ff ∧ isFinished ff.status = false := b.blk.2.1
+theorem hp (b : BCtx m p f cont s h fh rest) : ∃ fp, s.fiber? p = some fp ∧ PRec f cont fp := b.blk.1
+theorem hf (b : BCtx m p f cont s h fh rest) : ∃ ff, s.fiber? f = some ff ∧ FRec m ff ∧ isFinished ff.status = false := b.blk.2.1
 
 /-- when the running fiber is the body fiber itself, the stack is `f :: p :: post` -/
-theorem shape_f (b : BCtx p f cont s h fh rest) (hhf : h = f) : ∃ post, rest = p :: post ∧ p ∉ post ∧ f ∉ post := by
+theorem shape_f (b : BCtx m p f cont s h fh rest) (hhf : h = f) : ∃ post, rest = p :: post ∧ p ∉ post ∧ f ∉ post := by
   rcases b.blk.2.2 with hoff | ⟨pre, post, hstk⟩
   · exact absurd (hhf ▸ List.mem_cons_self ..) hoff.2.1
   · have hnd := b.c.hs.1
@@ -514,14 +562,14 @@ theorem shape_f (b : BCtx p f cont s h fh rest) (hhf : h = f) : ∃ post, rest =
       exact absurd (by rw [← hstk.1, hhf]; simp) (List.nodup_cons.mp hnd).1
 
 /-- the head's own record, when the head is `f` -/
-theorem frec (b : BCtx p f cont s h fh rest) (hhf : h = f) : FRec fh ∧ isFinished fh.status = false := by
+theorem frec (b : BCtx m p f cont s h fh rest) (hhf : h = f) : FRec m fh ∧ isFinished fh.status = false := by
   obtain ⟨ff, h1, h2, h3⟩ := b.hf
   rw [← hhf, b.c.hfp] at h1; cases h1; exact ⟨h2, h3⟩
 
 /-- the instruction completes with a value -/
-theorem bind (b : BCtx p f cont s h fh rest) (fh' : Fiber) (cont' : Cont) (v : Val)
+theorem bind (b : BCtx m p f cont s h fh rest) (fh' : Fiber) (cont' : Cont) (v : Val)
     (hst : fh'.status = fh.status) (hm : fh'.mask = fh.mask) (hrt : fh'.root = fh.root) :
-    G p f cont (deliverValue s h fh' cont' v) := by
+    G m p f cont (deliverValue s h fh' cont' v) := by
   by_cases hhf : h = f
   · obtain ⟨post, hr, _, _⟩ := b.shape_f hhf
     obtain ⟨h2, h3⟩ := b.frec hhf
@@ -530,12 +578,12 @@ theorem bind (b : BCtx p f cont s h fh rest) (fh' : Fiber) (cont' : Cont) (v : V
   · exact G_deliver_any _ _ _ (by rw [b.c.hstk]; exact b.blk) b.hhp (fun hh => hhf hh.symm)
 
 /-- the running fiber leaves run_vm with a signal -/
-theorem raise (b : BCtx p f cont s h fh rest) (fh' : Fiber) {sig : Nat} (v : Val)
+theorem raise (b : BCtx m p f cont s h fh rest) (fh' : Fiber) {sig : Nat} (v : Val)
     (hm : fh'.mask = fh.mask) (hrt : fh'.root = fh.root) (hpe : fh'.pending = fh.pending) (hsig : sig < stNew) :
-    G p f cont (raise s h fh' rest sig v) := by
+    G m p f cont (raise s h fh' rest sig v) := by
   unfold Fiber.raise
   split
-  · exact Or.inl (by simp [State.stop])
+  · exact Or.inl (stuck_stop _ _ rfl)
   · have hlt : (if inCcall fh' = true then coerce sig v else (sig, v)).1 < stNew := by
       split
       · exact coerce_lt sig v hsig
@@ -548,10 +596,10 @@ theorem raise (b : BCtx p f cont s h fh rest) (fh' : Fiber) {sig : Nat} (v : Val
     · obtain ⟨post, hr, hpn, hfn⟩ := b.shape_f hhf
       obtain ⟨h2, _⟩ := b.frec hhf
       subst hhf; subst hr
-      exact unwind_C _ _ (hp1 _) hpr (fiber?_setFiber_eq _ b.c.hfp) ⟨hm.trans h2.1, hrt.trans h2.2⟩ rfl hlt b.hne hpn hfn
+      exact unwind_C b.acc _ _ (hp1 _) hpr (fiber?_setFiber_eq _ b.c.hfp) ⟨hm.trans h2.1, hrt.trans h2.2⟩ rfl hlt b.hne hpn hfn
     · have hfh : f ≠ h := fun hh => hhf hh.symm
       obtain ⟨ff, hff, hfr⟩ := b.hf
-      have hf1 : ∀ x, ∃ ff', (s.setFiber h x).fiber? f = some ff' ∧ FRec ff' ∧ isFinished ff'.status = false :=
+      have hf1 : ∀ x, ∃ ff', (s.setFiber h x).fiber? f = some ff' ∧ FRec m ff' ∧ isFinished ff'.status = false :=
         fun x => ⟨ff, by rw [fiber?_setFiber_ne _ _ _ _ hfh]; exact hff, hfr⟩
       rcases b.blk.2.2 with hoff | ⟨pre, post, hstk⟩
       · refine unwind_A _ _ _ ⟨fp, hp1 _, hpr⟩ (hf1 _) (off_setFiber _ ?_ b.hhp hfh)
@@ -562,11 +610,11 @@ theorem raise (b : BCtx p f cont s h fh rest) (fh' : Fiber) {sig : Nat} (v : Val
           simp only [List.cons_append, List.cons.injEq] at hstk
           have hnd := b.c.hs.1
           rw [hstk.2] at hnd ⊢
-          exact unwind_B pre' _ post _ _ _ (hpo1 _ rfl) ⟨fp, hp1 _, hpr⟩ (hf1 _) (List.nodup_cons.mp hnd).2 hlt
+          exact unwind_B b.acc pre' _ post _ _ _ (hpo1 _ rfl) ⟨fp, hp1 _, hpr⟩ (hf1 _) (List.nodup_cons.mp hnd).2 hlt
 
-theorem panic (b : BCtx p f cont s h fh rest) (fh' : Fiber) (msg : String)
+theorem panic (b : BCtx m p f cont s h fh rest) (fh' : Fiber) (msg : String)
     (hm : fh'.mask = fh.mask) (hrt : fh'.root = fh.root) (hpe : fh'.pending = fh.pending) :
-    G p f cont (panic s h fh' rest msg) := b.raise fh' _ hm hrt hpe sigError_lt
+    G m p f cont (panic s h fh' rest msg) := b.raise fh' _ hm hrt hpe sigError_lt
 
 end BCtx
 
@@ -574,10 +622,10 @@ end BCtx
     keeps everything the composition argument looks at -/
 theorem pre_setFiber {s : State} {d : FId} {fd : Fiber} (x : Fiber) (hd : s.fiber? d = some fd) (hdp : p ≠ d)
     (hst : x.status = fd.status) (hm : x.mask = fd.mask) (hrt : x.root = fd.root) (hch : x.child = fd.child ∨ x.child ≠ some f)
-    (hp : ∃ fp, s.fiber? p = some fp ∧ PRec f cont fp) (hf : ∃ ff, s.fiber? f = some ff ∧ FRec ff ∧ isFinished ff.status = false)
+    (hp : ∃ fp, s.fiber? p = some fp ∧ PRec f cont fp) (hf : ∃ ff, s.fiber? f = some ff ∧ FRec m ff ∧ isFinished ff.status = false)
     (ho : Only p f s) :
     (∃ fp, (s.setFiber d x).fiber? p = some fp ∧ PRec f cont fp) ∧
-    (∃ ff, (s.setFiber d x).fiber? f = some ff ∧ FRec ff ∧ isFinished ff.status = false) ∧
+    (∃ ff, (s.setFiber d x).fiber? f = some ff ∧ FRec m ff ∧ isFinished ff.status = false) ∧
     Only p f (s.setFiber d x) ∧ (∀ stk, Off p f s stk → Off p f (s.setFiber d x) stk) := by
   refine ⟨?_, ?_, ?_, ?_⟩
   · obtain ⟨fp, h1, h2⟩ := hp; exact ⟨fp, by rw [fiber?_setFiber_ne _ _ _ _ hdp]; exact h1, h2⟩
@@ -600,13 +648,13 @@ namespace BCtx
 variable {s : State} {h : FId} {fh : Fiber} {rest : List FId}
 
 /-- the head's record `x` (same status / mask / root, child := the entered fiber) written, then `g ≠ f` entered -/
-theorem enterGen (b : BCtx p f cont s h fh rest) (s2 : State) (g : FId) (fuel : Nat) (v : Val)
+theorem enterGen (b : BCtx m p f cont s h fh rest) (s2 : State) (g : FId) (fuel : Nat) (v : Val)
     (hpo : PendOK s2) (hs : StackOK s2 (h :: rest))
-    (hp : ∃ fp, s2.fiber? p = some fp ∧ PRec f cont fp) (hf : ∃ ff, s2.fiber? f = some ff ∧ FRec ff ∧ isFinished ff.status = false)
+    (hp : ∃ fp, s2.fiber? p = some fp ∧ PRec f cont fp) (hf : ∃ ff, s2.fiber? f = some ff ∧ FRec m ff ∧ isFinished ff.status = false)
     (ho : Only p f s2) (hoff : Off p f s (h :: rest) → Off p f s2 (h :: rest))
     (hnr : ∀ cur, s2.fiber? g = some cur → refuseResume.contains cur.status = false) (hgf : g ≠ f) :
-    G p f cont (contNoCheck fuel s2 (h :: rest) g v) := by
-  refine contNoCheck_G fuel s2 (h :: rest) g v hpo hs ho b.hne hp hf hnr ?_
+    G m p f cont (contNoCheck fuel s2 (h :: rest) g v) := by
+  refine contNoCheck_G b.acc fuel s2 (h :: rest) g v hpo hs ho b.hne hp hf hnr ?_
   rcases b.blk.2.2 with hoff' | hon
   · exact Or.inl ⟨hoff hoff', hgf⟩
   · refine Or.inr (Or.inr ⟨hon, ?_, hgf⟩)
@@ -616,10 +664,10 @@ theorem enterGen (b : BCtx p f cont s h fh rest) (s2 : State) (g : FId) (fuel : 
     have := (not_refused (hnr x hx1)).2
     exact this hx2
 
-theorem enter (b : BCtx p f cont s h fh rest) (x : Fiber) (g : FId) (fg : Fiber) (bb : Bool) (fuel : Nat) (v : Val)
+theorem enter (b : BCtx m p f cont s h fh rest) (x : Fiber) (g : FId) (fg : Fiber) (bb : Bool) (fuel : Nat) (v : Val)
     (hst : x.status = fh.status) (hm : x.mask = fh.mask) (hpe : x.pending = fh.pending) (hrt : x.root = fh.root)
     (hxc : x.child = some g) (hg : s.fiber? g = some fg) (hchk : checkCanResume fg bb = none) (hgf : g ≠ f) :
-    G p f cont (contNoCheck fuel (s.setFiber h x) (h :: rest) g v) := by
+    G m p f cont (contNoCheck fuel (s.setFiber h x) (h :: rest) g v) := by
   have t := Tweak.setFiber x b.c.hfp hst hm hpe hrt
   have c' := b.c.tweak t
   obtain ⟨h1, h2, h3, h4⟩ := pre_setFiber (cont := cont) x b.c.hfp b.hhp hst hm hrt (Or.inr (by rw [hxc]; intro hh; cases hh; exact hgf rfl)) b.hp b.hf b.only
@@ -627,12 +675,12 @@ theorem enter (b : BCtx p f cont s h fh rest) (x : Fiber) (g : FId) (fg : Fiber)
   refine refuse_after_tweak t b.c.hfp (fun cur hh => ?_) (fun q hq => fiber?_setFiber_ne _ _ _ _ hq)
   rw [hg] at hh; cases hh; exact checkCanResume_none hchk
 
-theorem enterMarked (b : BCtx p f cont s h fh rest) (x : Fiber) (g : FId) (fg : Fiber) (bb : Bool) (fuel : Nat) (v : Val)
+theorem enterMarked (b : BCtx m p f cont s h fh rest) (x : Fiber) (g : FId) (fg : Fiber) (bb : Bool) (fuel : Nat) (v : Val)
     (d : FId) (fd : Fiber)
     (hst : x.status = fh.status) (hm : x.mask = fh.mask) (hpe : x.pending = fh.pending) (hrt : x.root = fh.root)
     (hxc : x.child = some g) (hg : s.fiber? g = some fg) (hchk : checkCanResume fg bb = none) (hgf : g ≠ f)
     (hd : (s.setFiber h x).fiber? d = some fd) (hdp : p ≠ d) :
-    G p f cont (contNoCheck fuel ((s.setFiber h x).setFiber d { fd with pending := some cancelSignal }) (h :: rest) g v) := by
+    G m p f cont (contNoCheck fuel ((s.setFiber h x).setFiber d { fd with pending := some cancelSignal }) (h :: rest) g v) := by
   have t := Tweak.setFiber x b.c.hfp hst hm hpe hrt
   have c' := b.c.tweak t
   obtain ⟨h1, h2, h3, h4⟩ := pre_setFiber (cont := cont) x b.c.hfp b.hhp hst hm hrt (Or.inr (by rw [hxc]; intro hh; cases hh; exact hgf rfl)) b.hp b.hf b.only
@@ -654,17 +702,17 @@ theorem enterMarked (b : BCtx p f cont s h fh rest) (x : Fiber) (g : FId) (fg : 
   · rw [fiber?_setFiber_ne _ _ _ _ hgd] at hc; exact hr1 cur hc
 
 /-- a write to the head only (status, mask, root, child kept), stack unchanged -/
-theorem tweak (b : BCtx p f cont s h fh rest) (x : Fiber)
+theorem tweak (b : BCtx m p f cont s h fh rest) (x : Fiber)
     (hst : x.status = fh.status) (hm : x.mask = fh.mask) (hpe : x.pending = fh.pending) (hrt : x.root = fh.root)
-    (hxc : x.child = fh.child ∨ x.child ≠ some f) : BCtx p f cont (s.setFiber h x) h x rest := by
+    (hxc : x.child = fh.child ∨ x.child ≠ some f) : BCtx m p f cont (s.setFiber h x) h x rest := by
   have t := Tweak.setFiber x b.c.hfp hst hm hpe hrt
   obtain ⟨h1, h2, h3, h4⟩ := pre_setFiber (cont := cont) x b.c.hfp b.hhp hst hm hrt hxc b.hp b.hf b.only
-  refine ⟨b.c.tweak t, ⟨h1, h2, ?_⟩, h3, b.hne, b.hhp⟩
+  refine ⟨b.c.tweak t, ⟨h1, h2, ?_⟩, h3, b.hne, b.hhp, b.acc⟩
   rcases b.blk.2.2 with ho | ho
   · exact Or.inl (h4 _ ho)
   · exact Or.inr ho
 
-theorem toG (b : BCtx p f cont s h fh rest) : G p f cont s := Or.inr (Or.inr (by rw [b.c.hstk]; exact b.blk))
+theorem toG (b : BCtx m p f cont s h fh rest) : G m p f cont s := Or.inr (Or.inr (by rw [b.c.hstk]; exact b.blk))
 
 end BCtx
 
@@ -690,18 +738,18 @@ namespace BCtx
 variable {s : State} {h : FId} {fh : Fiber} {rest : List FId}
 
 /-- transfer along a head-only rewrite that may also change things the argument does not look at -/
-theorem ofTweak (b : BCtx p f cont s h fh rest) {s' : State} {fh' : Fiber} (t : Tweak s s' h fh fh') (hch : fh'.child = fh.child) :
-    BCtx p f cont s' h fh' rest := by
+theorem ofTweak (b : BCtx m p f cont s h fh rest) {s' : State} {fh' : Fiber} (t : Tweak s s' h fh fh') (hch : fh'.child = fh.child) :
+    BCtx m p f cont s' h fh' rest := by
   obtain ⟨fp, hfp, hpr⟩ := b.hp
   obtain ⟨ff, hff, hfr, hfn⟩ := b.hf
   have hp' : s'.fiber? p = some fp := t.other p fp b.hhp hfp
-  have hf' : ∃ ff', s'.fiber? f = some ff' ∧ FRec ff' ∧ isFinished ff'.status = false ∧ ff'.status = ff.status := by
+  have hf' : ∃ ff', s'.fiber? f = some ff' ∧ FRec m ff' ∧ isFinished ff'.status = false ∧ ff'.status = ff.status := by
     by_cases hfh : f = h
     · subst hfh; rw [b.c.hfp] at hff; cases hff
       exact ⟨fh', t.cur, ⟨t.msk.trans hfr.1, t.rt.trans hfr.2⟩, t.st ▸ hfn, t.st⟩
     · exact ⟨ff, t.other f ff hfh hff, hfr, hfn, rfl⟩
   obtain ⟨ff', hff', hfr', hfn', hst'⟩ := hf'
-  refine ⟨b.c.tweak t, ⟨⟨fp, hp', hpr⟩, ⟨ff', hff', hfr', hfn'⟩, ?_⟩, ?_, b.hne, b.hhp⟩
+  refine ⟨b.c.tweak t, ⟨⟨fp, hp', hpr⟩, ⟨ff', hff', hfr', hfn'⟩, ?_⟩, ?_, b.hne, b.hhp, b.acc⟩
   · rcases b.blk.2.2 with ⟨h1, h2, h3, h4⟩ | hon
     · left; refine ⟨h1, h2, ?_, ?_⟩
       · intro x hx; rw [hp'] at hx; cases hx; exact h3 fp hfp
@@ -716,10 +764,10 @@ theorem ofTweak (b : BCtx p f cont s h fh rest) {s' : State} {fh' : Fiber} (t : 
       · rw [hb] at hcw; cases hcw
 
 /-- a refused `next`: the refusal error is handed to the callers -/
-theorem refusedUnwind (b : BCtx p f cont s h fh rest) (x : Fiber) (g : FId) (v : Val)
+theorem refusedUnwind (b : BCtx m p f cont s h fh rest) (x : Fiber) (g : FId) (v : Val)
     (hst : x.status = fh.status) (hm : x.mask = fh.mask) (hpe : x.pending = fh.pending) (hrt : x.root = fh.root)
     (hxc : x.child = some g) (hgf : g ≠ f) :
-    G p f cont (unwind (s.setFiber h x) (h :: rest) g sigError v) := by
+    G m p f cont (unwind (s.setFiber h x) (h :: rest) g sigError v) := by
   have t := Tweak.setFiber x b.c.hfp hst hm hpe hrt
   have c' := b.c.tweak t
   obtain ⟨h1, h2, h3, h4⟩ := pre_setFiber (cont := cont) x b.c.hfp b.hhp hst hm hrt (Or.inr (by rw [hxc]; intro hh; cases hh; exact hgf rfl)) b.hp b.hf b.only
@@ -727,7 +775,7 @@ theorem refusedUnwind (b : BCtx p f cont s h fh rest) (x : Fiber) (g : FId) (v :
   · exact unwind_A _ _ _ h1 h2 (h4 _ hoff)
   · have hnd := c'.hs.1
     rw [hstk] at hnd ⊢
-    exact unwind_B pre _ post _ _ _ c'.hpo h1 h2 hnd sigError_lt
+    exact unwind_B b.acc pre _ post _ _ _ c'.hpo h1 h2 hnd sigError_lt
 
 end BCtx
 
@@ -758,11 +806,11 @@ theorem evalAtom_setFiber (s : State) (q : FId) (x : Fiber) (env : List Val) (a 
     evalAtom (s.setFiber q x) env a = evalAtom s env a := by
   cases a <;> simp [evalAtom, State.setFiber]
 
-theorem G_stop (s : State) (h : Halt) : G p f cont (s.stop h) := Or.inl (by simp [State.stop])
+theorem G_stop (s : State) (h : Halt) (hd : h.isDone = false) : G m p f cont (s.stop h) := Or.inl (stuck_stop _ _ hd)
 
-theorem execPrim_G {s : State} {h : FId} {fh : Fiber} {rest : List FId} (b : BCtx p f cont s h fh rest) (l : Nat) (pr : Prim) (k : Tm)
+theorem execPrim_G {s : State} {h : FId} {fh : Fiber} {rest : List FId} (b : BCtx m p f cont s h fh rest) (l : Nat) (pr : Prim) (k : Tm)
     (hT : instrTarget s fh (.prim l pr k) ≠ some (.fib f)) (hC : ¬ cancelHits p s h fh (.prim l pr k)) :
-    G p f cont (execPrim s h fh rest l pr k) := by
+    G m p f cont (execPrim s h fh rest l pr k) := by
   unfold execPrim
   simp only []
   cases pr <;> simp only [instrTarget, cancelHits] at hT hC ⊢
@@ -772,7 +820,7 @@ theorem execPrim_G {s : State} {h : FId} {fh : Fiber} {rest : List FId} (b : BCt
     | exact b.raise _ _ (by rfl) (by rfl) (by rfl) (by decide)
     | exact b.raise _ _ (by rfl) (by rfl) (by rfl) (by simp only [userBase, userMax, stNew, propagateMaxStatus] at *; omega)
     | exact b.panic _ _ (by rfl) (by rfl) (by rfl)
-    | exact G_stop _ _
+    | exact G_stop _ _ rfl
     | exact b.enter _ _ _ _ _ _ (by rfl) (by rfl) (by rfl) (by rfl) (by rfl) (by assumption) (by assumption) (target_ne hT (by assumption))
     | exact b.enterMarked _ _ _ _ _ _ _ _ (by rfl) (by rfl) (by rfl) (by rfl) (by rfl) (by assumption) (by assumption) (target_ne hT (by assumption))
         (by assumption) (by intro hh; subst hh; exact hC ⟨_, by assumption, by assumption⟩)
@@ -780,8 +828,8 @@ theorem execPrim_G {s : State} {h : FId} {fh : Fiber} {rest : List FId} (b : BCt
     | (refine BCtx.bind (s := _) (fh := (ensureEnv s h fh).2.1) (rest := rest) ?_ _ _ _ (by rfl) (by rfl) (by rfl)
        exact b.ofTweak ((ensureEnv_tweak b.c.hfp).trans (Tweak.of_fibers_eq (ensureEnv_tweak b.c.hfp).cur rfl rfl)) (ensureEnv_child ..))
 
-theorem execNew_G {s : State} {h : FId} {fh : Fiber} {rest : List FId} (b : BCtx p f cont s h fh rest) (l : Nat) (body : Tm) (flags : List Nat) (k : Tm) (sg : Sig) :
-    G p f cont (execNew s h fh l body flags k sg) := by
+theorem execNew_G {s : State} {h : FId} {fh : Fiber} {rest : List FId} (b : BCtx m p f cont s h fh rest) (l : Nat) (body : Tm) (flags : List Nat) (k : Tm) (sg : Sig) :
+    G m p f cont (execNew s h fh l body flags k sg) := by
   unfold execNew
   simp only []
   have t := foldl_newEnvStep_tweak (p := h) flags (s, fh, none) b.c.hfp
@@ -790,9 +838,9 @@ theorem execNew_G {s : State} {h : FId} {fh : Fiber} {rest : List FId} (b : BCtx
       denv := (flags.foldl (newEnvStep h) (s, fh, none)).2.2, sig := sg } t.cur rfl rfl)
   exact (b.ofTweak t2 (foldl_newEnvStep_child h flags (s, fh, none))).bind _ _ _ rfl rfl rfl
 
-theorem execLoopNext_G {s : State} {h : FId} {fh : Fiber} {rest : List FId} (b : BCtx p f cont s h fh rest) (l : Nat) (a : Atom) (body k : Tm)
+theorem execLoopNext_G {s : State} {h : FId} {fh : Fiber} {rest : List FId} (b : BCtx m p f cont s h fh rest) (l : Nat) (a : Atom) (body k : Tm)
     (hT : some (evalAtom s fh.env a) ≠ some (.fib f)) :
-    G p f cont (execLoopNext s h fh rest l a body k) := by
+    G m p f cont (execLoopNext s h fh rest l a body k) := by
   unfold execLoopNext
   simp only []
   repeat' split
@@ -801,7 +849,7 @@ theorem execLoopNext_G {s : State} {h : FId} {fh : Fiber} {rest : List FId} (b :
     | exact b.panic _ _ (by rfl) (by rfl) (by rfl)
     | exact b.enter _ _ _ _ _ _ (by rfl) (by rfl) (by rfl) (by rfl) (by rfl) (by assumption) (by assumption) (target_ne hT (by assumption))
     | exact b.refusedUnwind _ _ _ (by rfl) (by rfl) (by rfl) (by rfl) (by rfl) (target_ne hT (by assumption))
-    | exact G_stop _ _
+    | exact G_stop _ _ rfl
 
 /-- the body fiber stays private to the macro during this step: nobody but `p` links to it, the instruction about to be
     executed does not name it as its fiber operand, and no `cancel` walk ends on `p` -/
@@ -810,35 +858,35 @@ def Priv (p f : FId) (s : State) : Prop :=
   ∀ h rest fh t, s.stack = h :: rest → s.fiber? h = some fh → fh.ctl = .run t →
     instrTarget s fh t ≠ some (.fib f) ∧ ¬ cancelHits p s h fh t
 
-theorem G_log {s : State} (l q : Nat) (v : Val) (h : G p f cont s) : G p f cont (s.log l q v) := by
-  unfold G Exited Blk Off at *
+theorem G_log {s : State} (l q : Nat) (v : Val) (h : G m p f cont s) : G m p f cont (s.log l q v) := by
+  unfold G Exited Blk Off Passed Stuck at *
   simp only [log_halt, log_stack, fiber?_log]
   exact h
 
 /-- ★ one step of the machine, whatever it is: from "blocked, body not exited" to halted / exited (cleanup is next) /
     still blocked with the body not exited -/
-theorem step_G (s : State) (hinv : Inv s) (hne : p ≠ f) (hb : Blk p f cont s s.stack) (hpriv : Priv p f s) :
-    G p f cont (step s) := by
+theorem step_G (hm : AccFin m) (s : State) (hinv : Inv s) (hne : p ≠ f) (hb : Blk m p f cont s s.stack) (hpriv : Priv p f s) :
+    G m p f cont (step s) := by
   unfold step
   split
-  · rename_i hh; exact Or.inl (by rw [hh]; simp)
+  · exact Or.inr (Or.inr hb)
   · rename_i hh
     have hso := hinv.2 hh
     split
-    · exact G_stop _ _
+    · exact G_stop _ _ rfl
     · rename_i h rest hstk
       rw [hstk] at hso
       split
-      · exact G_stop _ _
+      · exact G_stop _ _ rfl
       · rename_i fh hfh
         split
-        · exact G_stop _ _
+        · exact G_stop _ _ rfl
         · rename_i t hctl
           have hhp : p ≠ h := by
             intro hph; subst hph
             obtain ⟨fp, h1, h2⟩ := hb.1
             rw [hfh] at h1; cases h1; rw [h2.1] at hctl; cases hctl
-          have b : BCtx p f cont s h fh rest := ⟨⟨hstk, hfh, hinv.1, hso⟩, hstk ▸ hb, hpriv.1, hne, hhp⟩
+          have b : BCtx m p f cont s h fh rest := ⟨⟨hstk, hfh, hinv.1, hso⟩, hstk ▸ hb, hpriv.1, hne, hhp, hm⟩
           obtain ⟨hT, hC⟩ := hpriv.2 h rest fh t hstk hfh hctl
           split
           · -- ret
@@ -879,10 +927,10 @@ theorem run_of_halted {s : State} (n : Nat) (h : s.halt ≠ none) : run n s = s 
     and `f` has not exited, for EVERY number of steps `n` of ANY script: either `p` is still blocked and `f` still has not
     exited after `n` steps, or there is a first step `i ≤ n` — and before it `p` was blocked all the time — after which
     the machine has halted or the body fiber is finished AND the code after the resume (the cleanup) is what `p` runs. -/
-theorem blocked_until_exit : ∀ (n : Nat) (s : State), Inv s → p ≠ f → Blk p f cont s s.stack → (∀ i, Priv p f (run i s)) →
-    Blk p f cont (run n s) (run n s).stack ∨
-    ∃ i, i ≤ n ∧ (∀ j, j < i → Blk p f cont (run j s) (run j s).stack) ∧
-      ((run i s).halt ≠ none ∨ Exited p f cont (run i s)) := by
+theorem blocked_until_exit (hm : AccFin m) : ∀ (n : Nat) (s : State), Inv s → p ≠ f → Blk m p f cont s s.stack → (∀ i, Priv p f (run i s)) →
+    Blk m p f cont (run n s) (run n s).stack ∨
+    ∃ i, i ≤ n ∧ (∀ j, j < i → Blk m p f cont (run j s) (run j s).stack) ∧
+      (Stuck (run i s) ∨ Exited p f cont (run i s) ∨ Passed m p f cont (run i s)) := by
   intro n
   induction n with
   | zero => intro s _ _ hb _; exact Or.inl hb
@@ -890,9 +938,9 @@ theorem blocked_until_exit : ∀ (n : Nat) (s : State), Inv s → p ≠ f → Bl
     intro s hinv hne hb hpriv
     by_cases hh : s.halt = none
     · rw [run_succ_of_running n hh]
-      have hstep := step_G s hinv hne hb (hpriv 0)
+      have hstep := step_G hm s hinv hne hb (hpriv 0)
       have h1 : run 1 s = step s := by rw [run_succ_of_running 0 hh]; rfl
-      have first : ∀ j, j < 1 → Blk p f cont (run j s) (run j s).stack := by
+      have first : ∀ j, j < 1 → Blk m p f cont (run j s) (run j s).stack := by
         intro j hj; have : j = 0 := by omega
         subst this; exact hb
       rcases hstep with hhalt | hex | hblk
